@@ -321,3 +321,13 @@ package spg
 //@   loop 1 invariant [C05] count:  len(ret) == tcount(arr(ts), off(ts), it, tType) && len(ret) >= 0
 //@   loop 1 invariant [C05] values: forall(int(k), trig(ret[k]), 0 <= k && k < len(ret) ==> ret[k] == tfilt(arr(ts), off(ts), it, tType)[k])
 //@   loop 1 invariant [C05] fresh:  arrid(ret) > old(alloc)
+
+// ---------------------------------------------------------------- constructors (C16)
+
+//@ func NewCharRecipe
+//@   ensures [C16] defaults: res != nil && fresh(res) && res.Length == length && res.Allow == 15 && res.Exclude == 16 && res.Require == 0 &&
+//@        res.AllowChars == "" && res.ExcludeChars == "" && len(res.RequireSets) == 0
+
+//@ func NewWLRecipe
+//@   ensures [C16] defaults: res != nil && fresh(res) && res.Length == length && res.Capitalize == "none" && res.SeparatorChar == "" &&
+//@        res.SeparatorFunc == nil && res.list == wl
